@@ -7,9 +7,9 @@ SPEC = {
     "quick": {"shards": 16, "budget_s": 55, "timeout_s": 200},
     "thorough": {"shards": 16, "budget_s": 900, "timeout_s": 1500},
     "rule": "case = (grammar, string, start nonterminal); strings = all words over the grammar's terminal alphabet up to "
-            "length 4-6 (capped), yields of random derivations and single-edit mutants; distinct = distinct "
+            "length 4-6 (capped), yields of random derivations and single-edit mutants; grammars = feature corpus, random grammars and 'nullable forward chain' grammars (nonterminals nullable only through later rules, used side by side); distinct = distinct "
             "(grammar, string, nonterminal, entry point) triples judged against the independent span-chart recognizer",
-    "minimum": {"quick": {"accepted": 5000, "rejected": 5000, "grammars_nullable": 10, "grammars_ambiguous": 5},
+    "minimum": {"quick": {"accepted": 5000, "rejected": 5000, "grammars_nullable": 10, "grammars_ambiguous": 5, "grammars_nullable_forward_chain": 8},
                 "thorough": {"accepted": 20000, "rejected": 20000, "grammars_nullable": 30, "grammars_ambiguous": 30}},
     "assumptions": ["R1 span-chart recognizer (islamon/ref/grammar.py), cross-checked against brute-force derivation "
                     "enumeration in setup.sh", "<start> has exactly one alternative (documented restriction)",
@@ -98,6 +98,9 @@ def run(ctx):
     while ctx.running():
         if gi < len(corpus) and (gi % ctx.nshards) == ctx.shard % max(1, min(ctx.nshards, len(corpus))):
             name, g = corpus[gi]
+        elif rng.random() < 0.25:
+            name, g = "random", GG.nullable_chain_grammar(rng)
+            ctx.count("grammars_nullable_forward_chain")
         else:
             name, g = "random", GG.random_grammar(rng, max_nts=rng.choice([3, 4, 6]))
         gi += 1
